@@ -115,10 +115,23 @@ Definition check_life (v : tval) : bool := nat_list_eqb (life_obs (life_model v)
 (* [6; hold; k; obs_close_returned] *)
 Definition stall_model (v : tval) : fsh * list fth :=
   let k := vnat (vnth 2 v) in
-  run _ _ (fstep (vbool (vnth 1 v))) (finit, {| f_stall := true; f_pc := WLock |} :: repeat {| f_stall := false; f_pc := KLock |} k)
+  run _ _ (fstep (vbool (vnth 1 v)) true)
+      (finit, {| f_stall := true; f_starved := false; f_pc := WLock |} :: repeat {| f_stall := false; f_starved := false; f_pc := KLock |} k)
       ([0; 0; 0] ++ concat (repeat (seq 0 (S k)) 8)).
 Definition check_stall (v : tval) : bool :=
   Bool.eqb (forallb (fun t => negb (f_close_pending t)) (snd (stall_model v))) (vbool (vnth 3 v)).
+
+(* ---- kind 14: k Close calls while a copy step waits for bandwidth tokens ---- *)
+(* [14; cancellable; k; obs_close_returned; obs_start_returned] *)
+Definition throttle_model (v : tval) : fsh * list fth :=
+  let k := vnat (vnth 2 v) in
+  run _ _ (fstep false (vbool (vnth 1 v)))
+      (finit, {| f_stall := false; f_starved := true; f_pc := WThrottle |} :: repeat {| f_stall := false; f_starved := false; f_pc := KLock |} k)
+      ([0] ++ concat (repeat (seq 0 (S k)) 8)).
+Definition check_throttle (v : tval) : bool :=
+  let s := throttle_model v in
+  Bool.eqb (forallb (fun t => negb (f_close_pending t)) (snd s)) (vbool (vnth 3 v))
+  && Bool.eqb (forallb f_finished (snd s)) (vbool (vnth 4 v)).
 
 (* ---- kind 7: B queued on the lock behind A while Close runs ---- *)
 (* [7; lockfirst; closable; obs_b_err; obs_b_called] *)
@@ -174,6 +187,21 @@ Definition check_timeout (v : tval) : bool :=
   let s := run _ _ (tstep2 (vbool (vnth 1 v))) (tinit2, [HRun; CSelect true; TFire; GOpen]) [2; 1; 3; 0; 0; 0] in
   Bool.eqb (match nth_error (snd s) 0 with Some HDone => false | _ => true end) (vbool (vnth 2 v)).
 
+(* ---- kind 13: Register calls made while a DisposeAll runs ---- *)
+(* [13; alias; l0; events after the start of DisposeAll (VN 0 = a Dispose was entered, VL [id] = Register id succeeded);
+        obs dispose log of this DisposeAll; obs names registered afterwards] *)
+Fixpoint reg_ids (evs : list tval) : list nat :=
+  match evs with [] => [] | e :: r => match e with VL [x] => vnat x :: reg_ids r | _ => reg_ids r end end.
+Fixpoint during_sched (evs : list tval) (next : nat) : list nat :=
+  match evs with [] => [] | e :: r => match e with VL [_] => next :: during_sched r (S next) | _ => 0 :: during_sched r next end end.
+Definition during_model (v : tval) : ash * list apc :=
+  let l0 := map vnat (vl (vnth 2 v)) in let evs := vl (vnth 3 v) in
+  run _ _ (astep (vbool (vnth 1 v))) (ainit l0, ALoopStart :: map AReg (reg_ids evs))
+      ([0] ++ during_sched evs 1 ++ repeat 0 (length l0 + 2)).
+Definition check_during (v : tval) : bool :=
+  let s := during_model v in
+  nat_list_eqb (a_disposed (fst s)) (map vnat (vl (vnth 4 v))) && nat_list_eqb (a_live (fst s)) (map vnat (vl (vnth 5 v))).
+
 Definition check (v : tval) : bool :=
   match vnat (vnth 0 v) with
   | 0 => check_dispose v
@@ -189,6 +217,8 @@ Definition check (v : tval) : bool :=
   | 10 => check_overlap v
   | 11 => check_resmgr v
   | 12 => check_timeout v
+  | 13 => check_during v
+  | 14 => check_throttle v
   | _ => false
   end.
 
@@ -211,5 +241,6 @@ Definition predict (v : tval) : tval :=
   | 9 => let s := attach_model v in vnats (map (fun c => cnt c (b_closedlog (fst s))) (seq 0 (length (b_attached (fst s)))))
   | 10 => vnats [i_released (fst (overlap_model v))]
   | 11 => let s := rm_run (map dec_rmop (vl (vnth 1 v))) in VL [vnats (rm_log s); vnats (rm_results s)]
+  | 13 => let s := during_model v in VL [vnats (a_disposed (fst s)); vnats (a_live (fst s))]
   | _ => VL []
   end.
